@@ -157,10 +157,12 @@ def run(case):
         tags[variant] += 1
         Gc = drivers.build_graph(case)
         try:
-            m = fp.MinErrorFlow(Gc, flow_attr="flow", solver_options={"threads": 1}, **drivers.decode_kw(kw))
-            r = m.solve()
-            solved = m.is_solved()
-            sol = m.get_solution() if solved else None
+            from .. import faults
+            with faults.ValueNoise(0.0 if not variant.startswith("noise") else (-5e-10 if variant.endswith("-") else 5e-10)):
+                m = fp.MinErrorFlow(Gc, flow_attr="flow", solver_options={"threads": 1}, **drivers.decode_kw(kw))
+                r = m.solve()
+                solved = m.is_solved()
+                sol = m.get_solution() if solved else None
         except Exception as e:
             viol.append({"kind": "mef_exception", "msg": f"{ctx} raised {common.exc_str(e)}"})
             return
@@ -228,6 +230,8 @@ def run(case):
 
     for wt in ("int", "float"):
         one("plain", {}, wt)
+    one("noise-", {}, "int")
+    one("noise+", {}, "int")
     if not case["full"] or len(viol) > 3:
         return _ret(viol, nt, tags)
     for e in E:
